@@ -5,7 +5,7 @@ use std::sync::RwLock;
 use std::sync::{Arc, Mutex};
 
 use crate::controls::{Control, RawControl};
-use crate::controls_impl::{build_tag, parse_controls};
+use crate::controls_impl::{build_tag, try_parse_controls};
 use crate::search::SearchItem;
 use crate::RequestId;
 
@@ -49,6 +49,27 @@ pub enum LdapOp {
     Unbind,
 }
 
+/// Message ID from the content octets of its INTEGER: a value in 0..=2^31-1 (RFC 4511,
+/// `MessageID ::= INTEGER (0 ..  maxInt)`), or `None` for anything else.
+fn parse_msgid(octets: &[u8]) -> Option<RequestId> {
+    match octets.first() {
+        None => return None,
+        Some(first) if first & 0x80 != 0 => return None,
+        Some(_) => (),
+    }
+    let significant = match octets.iter().position(|&b| b != 0) {
+        Some(pos) => &octets[pos..],
+        None => return Some(0),
+    };
+    if significant.len() > 4 {
+        return None;
+    }
+    match parse_uint(significant) {
+        Ok((_, id)) => RequestId::try_from(id).ok(),
+        _ => None,
+    }
+}
+
 #[allow(clippy::type_complexity)]
 fn decode_inner(buf: &mut BytesMut) -> Result<Option<(RequestId, (Tag, Vec<Control>))>, io::Error> {
     let decoding_error = io::Error::new(io::ErrorKind::Other, "decoding error");
@@ -68,7 +89,10 @@ fn decode_inner(buf: &mut BytesMut) -> Result<Option<(RequestId, (Tag, Vec<Contr
         Some(tags) => tags,
         None => return Err(decoding_error),
     };
-    let mut maybe_controls = tags.pop().expect("element");
+    let mut maybe_controls = match tags.pop() {
+        Some(tag) => tag,
+        None => return Err(decoding_error),
+    };
     let has_controls = match maybe_controls {
         StructureTag {
             id,
@@ -86,31 +110,38 @@ fn decode_inner(buf: &mut BytesMut) -> Result<Option<(RequestId, (Tag, Vec<Contr
             // but AD puts it outside, where the optional controls belong. This confuses
             // our parser, which doesn't expect the extra sequence element at the end
             // and crashes. This match arm thus ignores the element.
-            maybe_controls = tags.pop().expect("element");
+            maybe_controls = match tags.pop() {
+                Some(tag) => tag,
+                None => return Err(decoding_error),
+            };
             false
         }
         _ => false,
     };
     let (protoop, controls) = if has_controls {
-        (tags.pop().expect("element"), Some(maybe_controls))
+        match tags.pop() {
+            Some(protoop) => (protoop, Some(maybe_controls)),
+            None => return Err(decoding_error),
+        }
     } else {
         (maybe_controls, None)
     };
     let controls = match controls {
-        Some(controls) => parse_controls(controls),
+        Some(controls) => match try_parse_controls(controls) {
+            Some(controls) => controls,
+            None => return Err(decoding_error),
+        },
         None => vec![],
     };
-    let msgid = match parse_uint(
-        tags.pop()
-            .expect("element")
-            .match_class(TagClass::Universal)
-            .and_then(|t| t.match_id(Types::Integer as u64))
-            .and_then(|t| t.expect_primitive())
-            .expect("message id")
-            .as_slice(),
-    ) {
-        Ok((_, id)) => id as i32,
-        _ => return Err(decoding_error),
+    let msgid = match tags
+        .pop()
+        .and_then(|t| t.match_class(TagClass::Universal))
+        .and_then(|t| t.match_id(Types::Integer as u64))
+        .and_then(|t| t.expect_primitive())
+        .and_then(|octets| parse_msgid(&octets))
+    {
+        Some(id) => id,
+        None => return Err(decoding_error),
     };
     Ok(Some((msgid, (Tag::StructureTag(protoop), controls))))
 }
